@@ -30,8 +30,8 @@ RULE_TEXT = 'obligations per (mutator, path-class) for (a), per mutator for (b)-
 ASSUMPTIONS = ['induction over operations replaces exhaustive history exploration; renames are covered only by rule (d) '
                '(known finding: table_dict is keyed by mutable attributes)',
                'may-raise operations considered: dict.pop/[] with a missing key, list.index/remove, subscripts; not arbitrary user __eq__']
-ENGINES = ['pyindex', 'paths', 'effects']
-TECHNIQUE = 'static analysis (ast): check-then-mutate ordering, paired-update and back-pointer obligations by path enumeration over every mutator'
+ENGINES = ['pyindex', 'paths', 'effects', 'specialise']
+TECHNIQUE = 'static analysis (ast): check-then-mutate ordering, paired-update and back-pointer obligations by path enumeration over every mutator; effect analysis of the reading operations; rules read helper-expanded mutators'
 
 DB_MUTATORS = ['add', 'add_table', 'add_reference', 'add_enum', 'add_sticky_note', 'add_table_group', 'add_project',
                'delete', 'delete_table', 'delete_reference', 'delete_enum', 'delete_table_group', 'delete_project']
